@@ -1464,6 +1464,20 @@ def project_on(f, start_re, tracked, why):
             if not (pat.search(st) or last):
                 dropped.append(' '.join(st.split())[:60])
                 continue
+            # a kept `if ..` / `if let ..` / `for ..` / `while ..` statement with one block and no `else`: the projection applies inside the block
+            mh = re.match(r'\s*(if|for|while)\b', st)
+            if mh and st.rstrip().endswith('}'):
+                j, depth, ob = mh.end(), 0, None
+                while j < len(st):
+                    if st[j] in '([':
+                        j = match_brace(st, j)
+                    elif st[j] == '{':
+                        ob = j
+                        break
+                    j += 1
+                if ob is not None and match_brace(st, ob) == len(st.rstrip()) - 1:
+                    out.append(st[:ob + 1] + proj(st[ob + 1:len(st.rstrip()) - 1]) + '}\n')
+                    continue
             mb = re.match(r'(\s*let\s+[^=]+=\s*)\{(.*)\}(\s*;\s*)$', st, flags=re.S)
             if mb and match_brace(st, st.index('{', len(mb.group(1)) - 1)) == st.rstrip().rstrip(';').rstrip().__len__() - 1:
                 out.append(mb.group(1) + '{' + proj(mb.group(2)) + '}' + mb.group(3))
@@ -1550,4 +1564,81 @@ def unfor_zip_pairs(f):
         n += 1
     if n:
         f.rewrites.append(('R5', f'{n}x `for (P1, P2) in A.iter().zip(B.iter())` -> index loop over the common prefix', ''))
+    return f
+
+
+def unok_or_else_q(f):
+    """R6: `let NAME = RECV.ok_or_else(|| E)?;` -> `let NAME = match RECV { Some(v_) => v_, None => { return Err(E); } };`  (RECV, E verbatim)"""
+    n = 0
+    while True:
+        m = re.search(r'\.\s*ok_or_else(\()', f.body)
+        if not m:
+            break
+        close = match_brace(f.body, m.start(1))
+        mi = re.match(r'\s*\|\s*\|\s*(.*)$', f.body[m.start(1) + 1:close], flags=re.S)
+        mq = re.match(r'\s*\?\s*;', f.body[close + 1:])
+        # statement start: `let NAME =` before the receiver
+        ls = f.body.rfind('let ', 0, m.start())
+        ml = re.match(r'let\s+(\w+)(\s*:\s*[^=]+)?\s*=\s*', f.body[ls:]) if ls >= 0 else None
+        if not (mi and mq and ml) or ';' in f.body[ls:m.start()]:
+            break
+        recv = f.body[ls + ml.end():m.start()].strip()
+        e = mi.group(1).strip().rstrip(',').strip()
+        if e.startswith('{') and match_brace(e, 0) == len(e) - 1 and ';' not in e:
+            e = e[1:-1].strip()
+        f.body = f.body[:ls] + f'let {ml.group(1)}{ml.group(2) or ""} = match {recv} {{ Some(v_) => v_, None => {{ return Err({e}); }} }};' + f.body[close + 1 + mq.end():]
+        n += 1
+    if n:
+        f.rewrites.append(('R6', f'{n}x `let x = OPT.ok_or_else(|| E)?;` -> match with an early `return Err(E)`', ''))
+    return f
+
+
+def uniter_max(f):
+    """R6: `PIPELINE.max()` (usize items) -> loop keeping the largest item in an Option<usize> (closure bodies verbatim)"""
+    n = 0
+    g = _Gen()
+    while True:
+        m = re.search(r'\.\s*max\(\)', f.body)
+        if not m:
+            break
+        st = _receiver_start(f.body, m.start())
+        if st < 0 or not _is_iter_expr(f.body[st:m.start()].strip()):
+            break
+        acc = f'mx{n}_'
+
+        def sink(elem, kind, acc=acc):
+            x = ('*' + elem) if kind == 'ref' else elem
+            return f'{{ let it_ = {x}; {acc} = match {acc} {{ Some(c_) => if it_ > c_ {{ Some(it_) }} else {{ Some(c_) }}, None => Some(it_) }}; }}'
+        code = _compile_iter(f.body[st:m.start()].strip(), sink, g, None)
+        f.body = f.body[:st] + f'{{ let mut {acc}: Option<usize> = None; {code} {acc} }}' + f.body[m.end():]
+        n += 1
+    if n:
+        f.rewrites.append(('R6', f'{n} iterator pipeline(s) `..max()` compiled to loops keeping the largest item (closure bodies verbatim)', ''))
+    return f
+
+
+def unchecked_sub_filter(f):
+    """R6: `A.checked_sub(B).filter(|&r| P)` -> `(match A.checked_sub(B) { Some(r) => if P { Some(r) } else { None }, None => None })`  (P verbatim)"""
+    n = 0
+    while True:
+        m = re.search(r'\.\s*checked_sub(\()', f.body)
+        if not m:
+            break
+        c1 = match_brace(f.body, m.start(1))
+        mf = re.match(r'\s*\.\s*filter(\()', f.body[c1 + 1:])
+        if not mf:
+            break
+        fo = c1 + 1 + mf.start(1)
+        fc = match_brace(f.body, fo)
+        mi = re.match(r'\s*\|\s*&?(\w+)\s*\|\s*(.*)$', f.body[fo + 1:fc], flags=re.S)
+        st = _receiver_start(f.body, m.start())
+        if not mi or st < 0:
+            break
+        recv = f.body[st:c1 + 1].strip()
+        f.body = f.body[:st] + f'(match {recv} {{ Some({mi.group(1)}) => if {mi.group(2).strip().rstrip(",").strip()} {{ Some({mi.group(1)}) }} else {{ None }}, None => None }})' + f.body[fc + 1:]
+        n += 1
+        if n > 8:
+            break
+    if n:
+        f.rewrites.append(('R6', f'{n}x `a.checked_sub(b).filter(|&r| P)` -> match (P verbatim)', ''))
     return f
